@@ -103,7 +103,14 @@ fn oracle(c: &EncCase) -> Verdict {
     // scale_kind 4: exact powers of two whose product lands on (or next to) a word boundary of the multi-word decomposition
     // (scaled magnitude exactly 2^63, 2^64, 2^65, 2^127, 2^128, ...): the boundary values of the 64- / 128-bit / multi-word paths
     let pow2 = c.scale_kind == 4;
-    let scale = refusal_scale.unwrap_or_else(|| { let s = se.exp2() * (1.0 + c.scale_m as f64 / (1u64 << 20) as f64); if !pow2 && s.log2() + 1.0 < qbits - 1e-9 { s } else { se.exp2() } });
+    // scale_kind 5 ("dense"): coefficient-list / single-real inputs with a full 53-bit mantissa under a power-of-two scale, so that
+    // the scaled value is exactly an (odd or even) integer of 2^52..2^54 or an exact half-integer tie of 2^51..2^52 — the region where
+    // adding 0.5 in double precision is no longer exact and where round-half-away-from-zero differs from every other tie rule
+    let dense = c.scale_kind == 5 && matches!(c.entry, Entry::CoeffList | Entry::SingleReal);
+    let se = if dense { se.min(900.0) } else { se };
+    let scale = refusal_scale.unwrap_or_else(|| { let s = se.exp2() * (1.0 + c.scale_m as f64 / (1u64 << 20) as f64); if !pow2 && !dense && s.log2() + 1.0 < qbits - 1e-9 { s } else { se.exp2() } });
+    let dsh = (c.vexp.rem_euclid(4) - 1) as f64;
+    let dv = |a: i32, b: i32| { let mag = (1u64 << 52) | ((a.unsigned_abs() as u64 & 0x3fff_ffff) << 22) | ((b as u32 as u64) >> 10); (if a < 0 { -1.0 } else { 1.0 }) * (mag as f64) * (dsh - se).exp2() };
     const BOUNDARY: [i32; 12] = [63, 64, 65, 127, 128, 129, 191, 192, 193, 255, 256, 257];
     let bexp = BOUNDARY[c.vexp.rem_euclid(BOUNDARY.len() as i32) as usize] as f64;
     // ---- values
@@ -112,8 +119,8 @@ fn oracle(c: &EncCase) -> Verdict {
     let mut vals: Vec<Complex64> = c.vals.iter().take(cnt).map(|(a, b)| Complex64::new(vm(*a), if c.len_sel & 0x100 != 0 { 0.0 } else { vm(*b) })).collect();
     if c.entry == Entry::Array && vals.is_empty() { vals.push(Complex64::new(vm(c.vals[0].0), 0.0)); }
     let lcnt = match c.len_sel % 5 { 0 => 1, 1 => n, 2 => 0, _ => 1 + pick_idx(c.len_sel, n) };
-    let list: Vec<f64> = c.vals.iter().take(lcnt).map(|(a, _)| vm(*a)).collect();
-    let single = vm(c.vals[0].0);
+    let list: Vec<f64> = c.vals.iter().take(lcnt).map(|(a, b)| if dense { dv(*a, *b) } else { vm(*a) }).collect();
+    let single = if dense { dv(c.vals[0].0, c.vals[0].1) } else { vm(c.vals[0].0) };
     let ival: i64 = match c.ikind { 0 => 0, 1 => 1, 2 => -1, 3 => -((1i64 << 40) + 12345), 4 => (c.moduli[0] as i64) + 1, 5 => -((c.moduli[0] as i64) + 1), 6 => c.ival >> (c.ival.unsigned_abs() % 60),
         // exact multiples of a prime of the chain, either sign (residue 0 in that component)
         8 | 9 | 10 | 11 => { let q = c.moduli[(c.ival.unsigned_abs() % c.moduli.len() as u64) as usize] as i64; let k = 1 + ((c.ival.unsigned_abs() >> 8) % 3) as i64; let v = q.checked_mul(k).unwrap_or(q); if c.ikind % 2 == 0 { -v } else { v } }
@@ -217,14 +224,14 @@ fn oracle(c: &EncCase) -> Verdict {
     }
     let above_prime = c.entry == Entry::Integer && cx.levels[level].moduli.iter().any(|q| ival.unsigned_abs() > *q);
     Verdict::Pass(Info::new(neg || scaled_bits > 64.0 || level > 0 || above_prime).label(format!("{:?}", c.entry)).label(class).label_if(neg, "negative/complex").label_if(level > 0, "lower level")
-        .label_if(above_prime, "integer above a prime").label_if(used, "destination forms into used objects").label(format!("primes:{}", match c.moduli.len() { 1 => "1", 2..=4 => "2-4", 5..=9 => "5-9", _ => "10-19" })))
+        .label_if(above_prime, "integer above a prime").label_if(dense, "53-bit mantissa, power-of-two scale").label_if(dense && dsh == 0.0, "scaled value an integer of 2^52..2^53").label_if(dense && dsh < 0.0, "scaled value an exact half-integer tie").label_if(used, "destination forms into used objects").label(format!("primes:{}", match c.moduli.len() { 1 => "1", 2..=4 => "2-4", 5..=9 => "5-9", _ => "10-19" })))
 }
 
 pub fn def() -> PropertyDef {
     PropertyDef {
         id: "C12",
         level: "exploration",
-        rule: "random: chains of 1..19 NTT primes of 20..60 bits (N=2..256, thorough 2048), every level, five entry points (complex vector, single real, single complex, integer, coefficient list), scales 2^0..2^(log Q-2) with non-power-of-two mantissas so that scaled magnitudes fall below 2^64, between 2^64 and 2^128 and above 2^128; values with both signs, imaginary parts, magnitudes 2^-30..2^50; integers 0, +-1, +-(q_0+1), -(2^40+12345), random; lists of length 0, 1, partial, full; refusal cases (scale <= 0, scale >= 2^(bits Q - 1), scaled magnitude >= 2^(bits Q + 1)). Oracle: plaintext -> per-prime inverse NTT -> own CRT -> centered integer vector, compared exactly with round(v*scale) (integer / single real / coefficient list) or within 1/2 + 256 eps (logN+2) |scaled input| of a naive compensated inverse canonical embedding (vector paths); decode within shadow::ckks_tolerance. non-trivial: negative or non-real input, or scaled magnitude above 2^64, or a lower level, or an integer above some prime.",
+        rule: "random: chains of 1..19 NTT primes of 20..60 bits (N=2..256, thorough 2048), every level, five entry points (complex vector, single real, single complex, integer, coefficient list), scales 2^0..2^(log Q-2) with non-power-of-two mantissas so that scaled magnitudes fall below 2^64, between 2^64 and 2^128 and above 2^128; values with both signs, imaginary parts, magnitudes 2^-30..2^50; integers 0, +-1, +-(q_0+1), -(2^40+12345), random; coefficient lists and single reals with a full 53-bit mantissa under a power-of-two scale (scaled value an exact integer of 2^52..2^55 of either parity, or an exact half-integer tie); lists of length 0, 1, partial, full; refusal cases (scale <= 0, scale >= 2^(bits Q - 1), scaled magnitude >= 2^(bits Q + 1)). Oracle: plaintext -> per-prime inverse NTT -> own CRT -> centered integer vector, compared exactly with round(v*scale) (integer / single real / coefficient list) or within 1/2 + 256 eps (logN+2) |scaled input| of a naive compensated inverse canonical embedding (vector paths); decode within shadow::ckks_tolerance. non-trivial: negative or non-real input, or scaled magnitude above 2^64, or a lower level, or an integer above some prime.",
         assumptions: vec!["inputs whose scaled magnitude is within 3 bits of the modulus size may be accepted or refused (the library's bit-count rule); they are not judged", "the decoder's word-wise conversion of negative multi-word coefficients is part of the tolerance (same algorithm as upstream SEAL)"],
         subs: vec![Sub::prop("encode_paths", 40_000, 800_000, 0.3, enc_case, oracle)],
     }
